@@ -41,6 +41,7 @@ func init() {
 			}
 			return []modeSpec{
 				{name: "tcp", n: n, perChild: 1, parallel: 16, netns: true, timeout: 10 * time.Minute},
+				{name: "tcp-tls", n: n / 2, perChild: 1, parallel: 16, netns: true, timeout: 10 * time.Minute},
 				{name: "tcp-chaos", n: n, perChild: 1, parallel: 16, netns: true, timeout: 10 * time.Minute, env: []string{"VERIF_HOOK=chaos", "VERIF_HOOK_PROB=30", "VERIF_HOOK_MAXUS=100", "VERIF_HOOK_LOCKUS=3000"}},
 			}
 		},
@@ -85,9 +86,17 @@ type c17Node struct {
 	pids  []*actor.PID
 }
 
-func c17StartNode(addr string, nTargets int) (*c17Node, error) {
+func c17StartNode(addr string, nTargets int, useTLS bool) (*c17Node, error) {
 	nd := &c17Node{}
-	nd.rem = remote.New(addr, remote.NewConfig())
+	cfg := remote.NewConfig()
+	if useTLS {
+		tc := harnessTLS()
+		if tc == nil {
+			return nil, fmt.Errorf("cannot create a TLS configuration")
+		}
+		cfg = cfg.WithTLS(tc)
+	}
+	nd.rem = remote.New(addr, cfg)
 	e, err := actor.NewEngine(actor.NewEngineConfig().WithRemote(nd.rem))
 	if err != nil {
 		return nil, err
@@ -128,13 +137,14 @@ func c17Run(c *caseCtx) (res caseResult) {
 	per := 5 + r.Intn(60)
 	rounds := 1 + r.Intn(2)
 	burst := 1 + r.Intn(8)
-	res.Desc = fmt.Sprintf("tcp senders=%d targets=%d per=%d down/up rounds=%d burst=%d", nS, nT, per, rounds, burst)
-	n1, err := c17StartNode(a1, 1)
+	res.Desc = fmt.Sprintf(c.mode+" senders=%d targets=%d per=%d down/up rounds=%d burst=%d", nS, nT, per, rounds, burst)
+	useTLS := c.mode == "tcp-tls"
+	n1, err := c17StartNode(a1, 1, useTLS)
 	if err != nil {
 		res.inconclusive("node 1: %v", err)
 		return
 	}
-	n2, err := c17StartNode(a2, nT)
+	n2, err := c17StartNode(a2, nT, useTLS)
 	if err != nil {
 		res.inconclusive("node 2: %v", err)
 		return
@@ -350,7 +360,7 @@ func c17Run(c *caseCtx) (res caseResult) {
 			res.violate("a second Remote.Stop().Wait() did not return")
 			return
 		}
-		if conn, err := net.DialTimeout("tcp", a2, 2*time.Second); err == nil {
+		if conn, err := net.DialTimeout("tcp", a2, 2*time.Second); err == nil { // (a plain TCP connect: refused whatever the transport on top)
 			conn.Close()
 			res.violate("after Remote.Stop().Wait() the node still accepts inbound connections on %s", a2)
 		}
@@ -362,23 +372,38 @@ func c17Run(c *caseCtx) (res caseResult) {
 		}
 		close(stopBg)
 		bg.Wait()
-		// let the attempts caused by the background senders finish: the unreachable count settles when a
-		// full attempt (about 3 s) passes without a new event
-		settle := func() {
-			last := unreachableCount(n1.mon, a2)
-			lastChange := time.Now()
-			waitFor(wd, func() bool {
-				n := unreachableCount(n1.mon, a2)
-				if n != last {
-					last, lastChange = n, time.Now()
-				}
-				return time.Since(lastChange) > 4500*time.Millisecond
-			})
-		}
-		settle()
 		n1.mon.flush(n1.eng, wd)
 		// down phase proper: a burst of k sends to the dead address
-		dl0 := streamDeadLetters(n1.mon, a2)
+		// (messages of the background senders may still be queued in front of the burst; the dead letters are
+		// therefore matched by content: the event carries the undelivered message, whose printed form shows the payload)
+		burstDL := func(i int) int {
+			tag := fmt.Sprintf("down-%d-%d", round, i)
+			return n1.mon.count(func(x any) bool {
+				ev, ok := x.(actor.DeadLetterEvent)
+				if !ok || ev.Target == nil || ev.Target.ID != "stream/"+a2 {
+					return false
+				}
+				d, ok := unwrapDeliver(ev.Message)
+				if !ok {
+					return false
+				}
+				tm, ok := d.Msg.(*remote.TestMessage)
+				return ok && string(tm.Data) == tag
+			})
+		}
+		if !exportAvailable {
+			// without the export shim the undelivered payload cannot be inspected: count instead, after the
+			// attempts caused by the background senders have had ample time to finish
+			time.Sleep(10 * time.Second)
+			n1.mon.flush(n1.eng, wd)
+			base := streamDeadLetters(n1.mon, a2)
+			burstDL = func(i int) int {
+				if streamDeadLetters(n1.mon, a2)-base >= burst {
+					return 1
+				}
+				return 0
+			}
+		}
 		un0 := unreachableCount(n1.mon, a2)
 		for i := 0; i < burst; i++ {
 			n1.eng.Send(target(i%nT), &remote.TestMessage{Data: []byte(fmt.Sprintf("down-%d-%d", round, i))})
@@ -387,18 +412,34 @@ func c17Run(c *caseCtx) (res caseResult) {
 			res.violate("round %d: %d messages sent to an unreachable peer and no RemoteUnreachableEvent followed", round, burst)
 			return
 		}
-		if !waitFor(wd, func() bool { return streamDeadLetters(n1.mon, a2)-dl0 >= burst }) {
-			res.violate("round %d: %d messages handed to a failed connection attempt, only %d surfaced as DeadLetterEvents for stream/%s", round, burst, streamDeadLetters(n1.mon, a2)-dl0, a2)
+		allThere := func() bool {
+			for i := 0; i < burst; i++ {
+				if burstDL(i) < 1 {
+					return false
+				}
+			}
+			return true
+		}
+		if !waitFor(wd, allThere) {
+			missing := 0
+			for i := 0; i < burst; i++ {
+				if burstDL(i) < 1 {
+					missing++
+				}
+			}
+			res.violate("round %d: %d messages handed to a failed connection attempt, %d of them never surfaced as a DeadLetterEvent for stream/%s", round, burst, missing, a2)
 			return
 		}
 		n1.mon.flush(n1.eng, wd)
-		if d := streamDeadLetters(n1.mon, a2) - dl0; d != burst {
-			res.violate("round %d: %d messages handed to a failed connection attempt produced %d DeadLetterEvents for stream/%s", round, burst, d, a2)
+		for i := 0; i < burst; i++ {
+			if d := burstDL(i); d != 1 {
+				res.violate("round %d: message %d handed to a failed connection attempt produced %d DeadLetterEvents for stream/%s, expected exactly 1", round, i, d, a2)
+			}
 		}
 		res.count("down_phases", 1)
 		res.count("dead_letters_down", int64(burst))
 		// the peer comes back on the same address
-		nn, err := c17StartNode(a2, nT)
+		nn, err := c17StartNode(a2, nT, useTLS)
 		if err != nil {
 			res.inconclusive("restarting the peer: %v", err)
 			return
@@ -408,7 +449,7 @@ func c17Run(c *caseCtx) (res caseResult) {
 			return
 		}
 	}
-	res.Sig = sigHash("tcp", nS, nT, rounds, burst)
+	res.Sig = sigHash(c.mode, nS, nT, rounds, burst)
 	if c.n < 2 || res.Verdict == vViolated {
 		res.Sample = map[string]any{"scenario": res.Desc, "unreachable_events": unreachableCount(n1.mon, a2), "stream_dead_letters": streamDeadLetters(n1.mon, a2)}
 	}
